@@ -319,6 +319,37 @@ def m_unnested_cascade(spec, wb, rng):
     return True
 
 
+def m_cascade_stage_names(kind):
+    """A cascade stage may list compartments and characteristics only: an undefined name, or the code name of a
+    parameter / an interaction (defined, but of the wrong kind), must be rejected as an invalid framework."""
+
+    def f(spec, wb, rng):
+        if kind == "undefined":
+            name = "ghost"
+        elif kind == "parameter":
+            cands = [p["name"] for p in spec["pars"] if not p["timed"]]
+            if not cands:
+                return False
+            name = cands[int(rng.integers(0, len(cands)))]
+        else:
+            if not spec.get("interactions"):
+                return False
+            name = spec["interactions"][0]["name"]
+        ws = sheet(wb, "Cascades")
+        for r in range(1, ws.max_row + 1):
+            for c in range(1, ws.max_column + 1):
+                ws.cell(r, c).value = None
+        ws.cell(1, 1).value = "main"
+        ws.cell(1, 2).value = "Constituents"
+        ws.cell(2, 1).value = "First"
+        ws.cell(2, 2).value = "alive"
+        ws.cell(3, 1).value = "Second"
+        ws.cell(3, 2).value = name if rng.random() < 0.5 else "%s, %s" % (_ords(spec)[0], name)
+        return True
+
+    return f
+
+
 def m_charac_undefined_component(spec, wb, rng):
     return set_cell(wb, "Characteristics", "alive", "Components", ", ".join(_ords(spec) + ["ghost"]))
 
@@ -542,6 +573,9 @@ FW_MUTATIONS = [
     ("outflow-from-sink", "reject", m_sink_outflow),
     ("inflow-to-source", "reject", m_source_inflow),
     ("un-nested-cascade", "reject", m_unnested_cascade),
+    ("cascade-stage-names[undefined]", "reject", m_cascade_stage_names("undefined")),
+    ("cascade-stage-names[parameter]", "reject", m_cascade_stage_names("parameter")),
+    ("cascade-stage-names[interaction]", "reject", m_cascade_stage_names("interaction")),
     ("undefined-characteristic-component", "reject", m_charac_undefined_component),
     ("undefined-characteristic-denominator", "reject", m_charac_undefined_denominator),
     ("parameter-without-function-or-databook-page", "reject", m_no_function_no_page),
